@@ -27,10 +27,17 @@ RULE = ("ledger suite: simulated machines [outhole (confirm by switch/event) ->]
         "lock filled beyond capacity, switch flicker at the source while its ball is late, two balls lost from an idle "
         "device inside one count window, double kick-out, source ready while a two-ball target is mid-eject, eject "
         "attempt held while the target's last slot is taken, two queued requests of which the first can never be served, "
-        "externally confirmed ball later than ball_missing_timeout while its target is mid-eject); 6 % real games "
+        "externally confirmed ball later than ball_missing_timeout while its target is mid-eject); 10 % from three further "
+        "templates (a ball landing in the waiting target less than entrance_count_delay before its source's eject "
+        "timeout; a 2-3 place staging device filling up -- ejected ball falling back, balls rolling in from the "
+        "playfield -- while a source waits for its eject to the playfield to end; a ball lying on the playfield until the "
+        "ball search gives up while another ball is promised to the playfield but not loose yet: requested just before, "
+        "held by an eject_attempt handler, stuck in the trough); ball search (timeout 3-9 s, phase 1) also in 8 % of the "
+        "uniform worlds; 6 % real games "
         "(ball_save with eject_delay + multiball as request sources); non-trivial = at least one eject and one rest point "
         "after it.  counter suite: one switch-counted device (1-4 ball switches, optional jam switch, entrance/exit "
-        "count delays 250-1000 ms, entrance events) and one entrance-counted device (capacity 1-3, ignore window) on "
+        "count delays 250-1000 ms, entrance events) and one entrance-counted device (capacity 1-4, 1-2 entrance "
+        "switches + entrance event, ignore window 0-3000 ms) on "
         "switch timelines of 4-20 events on a 125 ms grid (bounces, several switches inside one count window, bursts); "
         "non-trivial = the count changes; distinct by case hash")
 TRUSTED_BASE = [
@@ -39,19 +46,24 @@ TRUSTED_BASE = [
     "hand-written ledger model coq/C04/Model.v; tie = trace acceptance: harness/props/balls_common.py records "
     "the run of the real code (class-level __setattr__ wrappers for the seven counters, wrappers of "
     "EventManager.post*, of IncomingBall.add_external_confirm_*/_external_confirm and of "
-    "BallDevice.lost_incoming_ball, the virtual platform driver's pulse/enable) and parse_log groups adjacent raw "
-    "items into labels",
+    "BallDevice.lost_incoming_ball, of DefaultBallSearch.ball_search and BallSearch.give_up, the virtual platform "
+    "driver's pulse/enable) and parse_log groups adjacent raw items into labels",
     "hand-written counter model coq/C04/Counter.v (SwitchCounter._run/_count_switches_sync/is_jammed, "
     "EntranceSwitchCounter._entrance_switch_handler); tie = pointwise: same switch timeline to the real counters of "
     "a real machine and to the model, _last_count / is_count_unreliable / recorded activities compared after every "
     "event",
     "the physical-world simulator of balls_common.py (balls as tokens, switches as seats) is the ground truth of "
-    "the ledger oracle; the counter oracle uses the switch timeline itself",
+    "the ledger oracle and of the ledger's physical readiness guard (LEjecting: a seat free in a switch-counted "
+    "target); the counter oracle uses the switch timeline itself (hits on one entrance inside its ignore window = one "
+    "ball)",
+    "the model is of the code WITH fixes/C04-balls-negative-after-confirm.patch and "
+    "fixes/C04-give-up-keeps-promised-balls.patch",
 ]
 ASSUMPTIONS = [
     "topologies: one playfield; switch-counted and entrance-switch-counted devices; pulse-coil and enable-coil "
-    "ejectors; confirm_eject_type target / switch / event. Not generated: mechanical / player-controlled ejects (ball "
-    "skipping), hold-coil ejectors, ball search, several playfields, entrance_switch_full_timeout; an "
+    "ejectors; confirm_eject_type target / switch / event; ball search with phase 1 only (non-trough devices tagged "
+    "no-eject-on-ballsearch, no game running when it gives up). Not generated: mechanical / player-controlled ejects "
+    "(ball skipping), hold-coil ejectors, ball-search phases 2/3, several playfields, entrance_switch_full_timeout; an "
     "entrance-counted device never gets a stuck or falling-back ball or a double kick-out (it cannot notice any of "
     "them); jam switches only in "
     "the counter suite (idle device), not in the simulated machines",
@@ -69,18 +81,26 @@ LEVEL_TEXT = ("Machine-checked proof (Coq). Ledger, for all traces it accepts: t
               "physical device contents, playfield.balls equals the balls physically loose; 0 <= balls <= capacity for "
               "every device at every observable point; a coil is pulsed only in state 'ejecting' and only after the "
               "readiness check of that attempt was announced, which is accepted only while capacity - counted "
-              "exceeds the balls the target expects from other sources (MPF's numbers at the check); an arriving ball is matched only "
+              "exceeds the balls the target expects from other sources (MPF's numbers at the check) and, for a "
+              "switch-counted target, a seat is physically free at that moment; a ball-search pulse only at an idle "
+              "device counting 0; giving up writes off exactly playfield.balls from num_balls_known, playfield.balls "
+              "and playfield.available_balls and num_balls_known changes at no other step except a newly found ball; "
+              "an arriving ball is matched only "
               "with an expected ball that has passed its confirm switch/event, and a ball is booked as lost only "
               "while it is still expected (never both).  Counting layer, for all switch timelines of an idle device: "
               "0 <= count <= number of switches (entrance counter: <= ball_capacity); a switch state stable for the "
-              "count delays is reported exactly (only-jam-switch case flagged unreliable); no count change without a "
-              "switch change.  Composition: with counts taken from settled counters the playfield clause holds "
+              "count delays is reported exactly (only-jam-switch case flagged unreliable) and never as 0 while a "
+              "switch is active (lone ball on the jam switch of an empty device); no count change without a "
+              "switch change; entrance counter with any number of entrances: balls through pairwise different "
+              "entrances are all counted up to the capacity whatever the ignore window.  Composition: with counts taken from settled counters the playfield clause holds "
               "without assuming counted = physical.  That the real coroutines emit only traces the ledger accepts is "
               "validated on every run (sampled), not proved; the counter model is tied pointwise to the real classes.")
 LEVEL_NOTE = ("Proved: bookkeeping layer (all traces) and counting layer of an idle device (all switch timelines). "
               "Validated by sampled runs only: the ledger tie (real runs are accepted and every snapshot is "
               "reproduced), the counter during an eject, and that the ledger's LCount inputs are the counter's "
-              "reports. the available balls summing to num_balls_known is refuted (available_sum_refuted, known finding, excess "
+              "reports. For the code without fixes/C04-give-up-keeps-promised-balls.patch 'giving up preserves the available-ball "
+              "sum' is refuted (give_up_zeroing_available_refuted) and reproduced (VIOLATION until the patch is "
+              "applied). the available balls summing to num_balls_known is refuted (available_sum_refuted, known finding, excess "
               "tracked exactly); playfield.balls >= 0 is refuted in the model (pf_balls_nonneg_refuted) and reproduced on the "
               "code (known finding); 'no pulse towards a full device' holds for MPF's believed numbers only (known "
               "findings for late balls / two sources). The oracle clause 'a queued request is served once a ball is "
@@ -151,6 +171,10 @@ def label_term(l, devs):
         return "LIncTimeout %s %s" % (dz(l[1]), dz(l[2]))
     if k == "IncLost":
         return "LIncLost %s %s" % (dz(l[1]), dz(l[2]))
+    if k == "SearchPulse":
+        return "LSearchPulse %s" % dz(l[1])
+    if k == "GiveUp":
+        return "LGiveUp %s %s %s" % (zlit(l[1]), zlit(l[2]), zlit(l[3]))
     if k == "S":
         kind = l[1]
         if kind == "leave":
@@ -203,7 +227,9 @@ def coq_case(case, out):
     s, truth = first[1], first[4]
     ds = coqlist(zl([bc.DEV_ID[d], s[d][0], s[d][2], ST[s[d][3]], truth["dev"][d]]) for d in devs)
     pf = zl(list(s["playfield"]) + [s["known"], truth["loose"]])
-    terms = labels_to_terms(labels[1:], devs)
+    # configuration labels: how each device counts (ball switches = one seat per switch / entrance switch)
+    kinds = ["LKind %s %s" % (dz(d), zlit(1 if v["kind"] == "switch" else 0)) for d, v in devs.items()]
+    terms = kinds + labels_to_terms(labels[1:], devs)
     return "((%s, (%s, %s), %s), (-1))" % (cfg_term(devs), ds, pf, coqlist(terms))
 
 
@@ -212,10 +238,20 @@ def run_impl(case):
 
 
 def gen(rng, tier, i):
-    if rng.random() < 0.06:
+    r = rng.random()
+    if r < 0.06:
         # a real game: ball start, ball_save (eject_delay) and multiball as the sources of the ball requests
         return bc.gen_case(rng, tier, i, profile="save_twice")
-    return bc.gen_case(rng, tier, i)
+    if r < 0.16:
+        # fourth pass: target filling up while a source waits for its eject to end; ball search giving up
+        return bc.gen_case(rng, tier, i, profile=rng.choice(bc.C04_TEMPLATES))
+    case = bc.gen_case(rng, tier, i)
+    if rng.random() < 0.08 and not case["topo"].get("game"):
+        # ball search in an arbitrary world: whatever lingers on the playfield for longer than the timeout is searched
+        # for and written off
+        case["topo"]["search"] = {"timeout": rng.choice([3000, 5000, 9000]), "k1": rng.choice([1, 2]),
+                                  "wait": rng.choice([1000, 2000])}
+    return case
 
 
 def nontrivial(case, out):
@@ -245,7 +281,8 @@ def gen_counter(rng, tier, i):
     n = rng.choice([1, 2, 3, 4])
     jam = rng.random() < 0.4
     cfg = {"n": n, "jam": jam, "ent": rng.choice([250, 500, 500, 750]), "exit": rng.choice([250, 500, 500, 1000]),
-           "ecap": rng.choice([1, 2, 3]), "ignore": rng.choice([0, 0, 250, 1000])}
+           "ecap": rng.choice([1, 2, 3, 4]), "ignore": rng.choice([0, 0, 250, 1000, 3000]),
+           "nent": rng.choice([1, 2, 2])}       # entrance switches of the entrance-counted device (+ its entrance event)
     nsw = n + (1 if jam else 0)
     ev = []
     t = 0
@@ -263,8 +300,8 @@ def gen_counter(rng, tier, i):
         r = rng.random()
         if r < 0.68:
             k = rng.randrange(nsw)
-            if jam and rng.random() < 0.25:
-                k = n
+            if jam and rng.random() < (0.25 if style != "slow" else 0.5):
+                k = n       # (slow timelines with a jam switch: a ball coming to rest on the jam switch alone)
             state[k] ^= 1
             ev.append([t, "sw", k, state[k]])
         elif r < 0.78:
@@ -277,7 +314,10 @@ def gen_counter(rng, tier, i):
     t = 0
     for _ in range(rng.choice([2, 4, 6, 9])):
         t += GRID * rng.choice([1, 1, 2, 3, 8, 20])
-        eev.append([t, "hit" if rng.random() < 0.8 else "event"])
+        if rng.random() < 0.75:
+            eev.append([t, "hit", rng.randrange(cfg["nent"])])     # a ball rolls over entrance switch k
+        else:
+            eev.append([t, "event"])                               # a ball comes in through the entrance event
     return {"cfg": cfg, "ev": ev, "eev": eev}
 
 
@@ -295,8 +335,10 @@ def run_counter(case):
         sw["s_jam"] = {"number": "30"}
         box["jam_switch"] = "s_jam"
         names.append("s_jam")
-    sw["s_e"] = {"number": "40"}
-    ebox = {"entrance_switch": "s_e", "ball_capacity": c["ecap"], "eject_coil": "c_ebox", "tags": "trough",
+    enames = ["s_e%d" % k for k in range(c.get("nent", 1))]
+    for k, nm in enumerate(enames):
+        sw[nm] = {"number": str(40 + k)}
+    ebox = {"entrance_switch": ", ".join(enames), "ball_capacity": c["ecap"], "eject_coil": "c_ebox", "tags": "trough",
             "entrance_switch_ignore_window_ms": c["ignore"], "entrance_events": "verif_ebox_entrance"}
     cfg = {"switches": sw, "coils": {"c_box": {"number": "1"}, "c_ebox": {"number": "2"}},
            "ball_devices": {"box": box, "ebox": ebox},
@@ -347,8 +389,9 @@ def run_counter(case):
                            acts["ent"], acts["ret"]])
             else:
                 if e[1] == "hit":
-                    m.switch_controller.process_switch("s_e", state=1, logical=True)
-                    m.switch_controller.process_switch("s_e", state=0, logical=True)
+                    nm = enames[e[2] if len(e) > 2 else 0]
+                    m.switch_controller.process_switch(nm, state=1, logical=True)
+                    m.switch_controller.process_switch(nm, state=0, logical=True)
                 else:
                     m.events.post("verif_ebox_entrance")
                 rig.advance(0)
@@ -381,7 +424,8 @@ def coq_counter(case, out):
             cev.append("CEnt %s" % zlit(e[0]))
         else:
             cev.append("CTick %s" % zlit(e[0]))
-    eev = ["%s %s" % ("EHit" if e[1] == "hit" else "EEvent", zlit(e[0])) for e in case["eev"]]
+    eev = ["EHit %s %s" % (zlit(e[0]), zlit(e[2] if len(e) > 2 else 0)) if e[1] == "hit" else "EEvent %s" % zlit(e[0])
+           for e in case["eev"]]
     inp = "((mkc %s %s %s %s 5000, %s), (mke %s %s, %s))" % (
         zlit(c["n"]), "true" if c["jam"] else "false", zlit(c["ent"]), zlit(c["exit"]), coqlist(cev),
         zlit(c["ecap"]), zlit(c["ignore"]), coqlist(eev))
@@ -415,6 +459,10 @@ def oracle_counter(case, out):
             state[e[2]] = e[3]
     fin = out["final"]
     only_jam = c["jam"] and state[c["n"]] and sum(state) == 1
+    if only_jam and fin["box"][0] < 1:
+        # a ball resting on the jam switch is a ball in the device, whatever the counter thinks of its reliability
+        fails.append({"sig": "ball-on-jam-switch-not-counted", "what": "only the jam switch has been active for 8 s "
+                      "(a ball rests on it) but the counter reports %d balls" % fin["box"][0]})
     if not only_jam and not fin["unrel"]:
         if fin["box"][0] != sum(state):
             fails.append({"sig": "stable-count-wrong", "what": "switches %r quiet for 8 s but the counter reports %d" %
@@ -445,7 +493,9 @@ def oracle_counter(case, out):
         prev, prev_settled = r, settled
     # debounce, from the timeline alone: the reported count is the number of active switches at the latest instant
     # (125 ms grid) at which every switch had been unchanged for its delay (jam-free devices)
-    if not c["jam"]:
+    # (with a jam switch: the same, except that while ONLY the jam switch is active the counter keeps its previous
+    #  count if that was not 0 -- the device is then never reported empty)
+    if True:
         hist = [[(-10 ** 7, 0)] for _ in range(nsw)]         # per switch: (time, state) changes
         k = 0
         for e, r in zip(case["ev"], out["tb"]):
@@ -454,9 +504,10 @@ def oracle_counter(case, out):
             t = e[0]
             exp = None
             tau = t - t % GRID
+            jam_alone = False
             while tau >= -GRID and exp is None:
                 n_act, ok = 0, True
-                for h in hist:
+                for hi, h in enumerate(hist):
                     # state at tau: timers due at tau run before a change made at tau (strict <)
                     past = [x for x in h if x[0] < tau]
                     since, st = past[-1]
@@ -464,15 +515,40 @@ def oracle_counter(case, out):
                         ok = False
                         break
                     n_act += st
+                    if c["jam"] and hi == c["n"]:
+                        jam_state = st
                 if ok:
                     exp = n_act
+                    jam_alone = bool(c["jam"] and jam_state and n_act == 1)
                 tau -= GRID
             if exp is None:
                 exp = 0
-            if r[0] != exp:
+            if jam_alone:
+                if r[0] < 1:
+                    fails.append({"sig": "ball-on-jam-switch-not-counted", "what": "at t=%d ms the counter reports 0 "
+                                  "balls although the jam switch (alone) has been active for the count delay: a ball "
+                                  "rests on it" % t})
+                    break
+            elif r[0] != exp:
                 fails.append({"sig": "count-not-debounced", "what": "at t=%d ms the counter reports %d; the last switch "
                               "state that was stable for the count delays had %d active switches" % (t, r[0], exp)})
                 break
+    # entrance-counted device: hits on the SAME entrance inside its ignore window are one ball rattling on that switch
+    # (that is what the option says); every other hit is a ball of its own, through whichever entrance it came
+    until = {}
+    balls_in = 0
+    for e, r in zip(case["eev"], out["te"]):
+        name = e[2] if e[1] == "hit" else "event"
+        if e[0] >= until.get(name, -1):
+            balls_in += 1
+            if c["ignore"] > 0:
+                until[name] = e[0] + c["ignore"]
+        if r[0] != min(c["ecap"], balls_in):
+            fails.append({"sig": "entrance-ball-not-counted", "what": "at t=%d ms %d balls have entered the device "
+                          "(capacity %d; entrances used: %s) but the counter reports %d" %
+                          (e[0], balls_in, c["ecap"], sorted({str(x[2]) if x[1] == "hit" else "event"
+                                                              for x in case["eev"]}), r[0])})
+            break
     hits = sum(1 for e in case["eev"])
     if out["te"] and out["te"][-1][0] > hits:
         fails.append({"sig": "entrance-count-above-hits", "what": "%d balls counted after %d entrance hits" %
